@@ -238,6 +238,24 @@ def check(ctx: Ctx, col: Collector, tier: str) -> None:
                         f"(`def load(): from ._impl import _secret as secret`) makes a private declaration public" if not top else
                         f"a module-level {icls} statement is not recorded, so what it re-exports stays private and is dropped")
 
+    # an import that only type checkers see (`if TYPE_CHECKING:`; mypy marks it is_mypy_only) binds no name at run time and re-exports nothing
+    emf = repo.function(VISITOR, f"{VCLS}.enter_moduledef")
+    skips_mypy_only = any(isinstance(n, ast.Attribute) and n.attr == "is_mypy_only" for n in ast.walk(emf.node))
+    (col.ok if skips_mypy_only else col.bad)("C04.REEXPORT-SOURCE", f"{VISITOR}::{VCLS}.enter_moduledef::type-checking-imports", repo.loc(VISITOR, emf.node),
+                                             "imports marked is_mypy_only are not recorded" if skips_mypy_only else "node.imports is filtered by is_top_level only",
+                                             *([] if skips_mypy_only else ["an import under `if TYPE_CHECKING:` in an __init__.py is recorded as a re-export although it binds nothing at run time: "
+                                                                           "`if TYPE_CHECKING: from ._impl import _Hidden` makes the private class public for the package"]))
+
+    # `from ._impl import *` re-exports what the star import binds: the names of `__all__` when the source module defines one (mypy records this as
+    # SymbolTableNode.module_public), every public-named declaration otherwise
+    vmod = repo.module(VISITOR)
+    reads_all = [f"{q}:{n.lineno}" for q, f2 in vmod.functions.items() for n in ast.walk(f2.node)
+                 if (isinstance(n, ast.Constant) and n.value == "__all__") or (isinstance(n, ast.Attribute) and n.attr in ("module_public", "is_public_name"))]
+    (col.ok if reads_all else col.bad)("C04.REEXPORT-SOURCE", f"{VISITOR}::{VCLS}._check_publicity_in_reexports::wildcard-respects-__all__", repo.loc(VISITOR, rfi.node),
+                                       f"the export list of the source module is consulted ({reads_all[:2]})" if reads_all else "neither `__all__` nor mypy's module_public is read anywhere in the visitor",
+                                       *([] if reads_all else ["a star re-export publishes every public-named declaration of the source module, also those its `__all__` leaves out: `pk/__init__.py: from ._impl import *` with "
+                                                               "`pk/_impl.py: __all__ = [\"api\"]; def api(): ...; def helper(): ...` marks helper public and emits it into package pk"]))
+
     # a relative import names its target relative to the re-exporting package, at any depth
     dit = ctx.interp(rfi, inline={"is_internal"})
     dmf = Obj("MypyFile", (("fullname", Const("pkg.sub._deep")), ("name", Const("_deep"))))
